@@ -15,6 +15,7 @@
 #include <array>
 #include <cstddef>
 #include <string>
+#include <sys/time.h>
 #include <type_traits>
 #include <utility>
 #include <vector>
@@ -40,11 +41,30 @@ inline long &CALLS()
   static long n = 0;
   return n;
 }
+// A user function called absurdly often (a loop of the code under test that does not stop, e.g. a
+// counter of a narrower type that wraps): stop like the watchdog does - crash record "hang", exit
+// code 68 after the flushed record prefix - instead of growing the call log without bound.
+constexpr long MAX_CALLS = 3000000;
 inline void lg(std::string const &e)
 {
+  if (CALLS() >= MAX_CALLS)
+  {
+    vj::crash_line("hang", 68);
+    _exit(68);
+  }
   if (!LOG().empty()) LOG() += ',';
   LOG() += e;
   ++CALLS();
+}
+// Watchdog around every driven call: 20 s of CPU time of this process (ITIMER_PROF; immune to the
+// box being overloaded) or 600 s of wall-clock time (a call that blocks).  SIGPROF is handled in
+// c16_main.cpp, SIGALRM by vj::on_signal: both leave a crash record "hang" and exit with 68.
+inline void watchdog_arm()
+{
+  struct itimerval t{};
+  t.it_value.tv_sec = 20;
+  ::setitimer(ITIMER_PROF, &t, nullptr);
+  ::alarm(600);
 }
 inline long &NREC()
 {
@@ -53,14 +73,21 @@ inline long &NREC()
 }
 
 // ---------------------------------------------------------------- elements as JSON / codes
-inline std::string ej(int x) { return std::to_string(x); }
-inline std::string ej(long x) { return std::to_string(x); }
-inline std::string ej(unsigned x) { return std::to_string(x); }
-inline std::string ej(unsigned long x) { return std::to_string(x); }
+// TLC integers are 32-bit: every logged integer is clamped to [-2^30, 2^30].  Honest values are tiny
+// (elements 0..2, positions and sizes below a few hundred); a garbage size / position / element
+// (SIZE_MAX, a wrapped difference) stays different from every predicted value and is rejected by the
+// judge as wrong-<field> instead of breaking TLC's JSON reader.
+constexpr long long CLAMP = 1LL << 30;
+inline long long clamp(long long x) { return x > CLAMP ? CLAMP : x < -CLAMP ? -CLAMP : x; }
+inline long long clamp_u(unsigned long long x) { return x > static_cast<unsigned long long>(CLAMP) ? CLAMP : static_cast<long long>(x); }
+inline std::string ej(int x) { return std::to_string(clamp(x)); }
+inline std::string ej(long x) { return std::to_string(clamp(x)); }
+inline std::string ej(unsigned x) { return std::to_string(clamp_u(x)); }
+inline std::string ej(unsigned long x) { return std::to_string(clamp_u(x)); }
 inline std::string ej(char x) { return std::to_string(static_cast<int>(static_cast<unsigned char>(x))); }
-inline std::string ej(wchar_t x) { return std::to_string(static_cast<long>(x)); }
+inline std::string ej(wchar_t x) { return std::to_string(clamp(static_cast<long>(x))); }
 inline std::string ej(bool x) { return x ? "true" : "false"; }
-inline std::string ej(E3 x) { return std::to_string(static_cast<int>(x)); }
+inline std::string ej(E3 x) { return std::to_string(clamp(static_cast<int>(x))); }
 template <typename A, typename B>
 inline std::string ej(std::pair<A, B> const &p)
 {
@@ -149,13 +176,14 @@ struct Rec
     s += '"';
     return *this;
   }
-  Rec &ki(char const *key, long long v) { return k(key, std::to_string(v)); }
+  Rec &ki(char const *key, long long v) { return k(key, std::to_string(clamp(v))); }
   Rec &kb(char const *key, bool v) { return k(key, v ? "true" : "false"); }
   // inputs are complete: flush them, then the real call is made
   void begin()
   {
     LOG().clear();
     CALLS() = 0;
+    watchdog_arm();
     vj::begin_call(s);
     s.clear();
   }
@@ -293,7 +321,7 @@ struct FF
   template <typename X>
   int operator()(X const &x, int const st) const
   {
-    lg("[" + ej(x) + "," + std::to_string(st) + "]");
+    lg("[" + ej(x) + "," + ej(st) + "]");
     return t[static_cast<std::size_t>(code(x))][static_cast<std::size_t>(st)];
   }
   std::string json() const { return seqseqj(t); }
@@ -311,7 +339,7 @@ struct FBF
   template <typename X>
   std::pair<fcppt::loop, int> operator()(X const &x, int const st) const
   {
-    lg("[" + ej(x) + "," + std::to_string(st) + "]");
+    lg("[" + ej(x) + "," + ej(st) + "]");
     auto const &e = t[static_cast<std::size_t>(code(x))][static_cast<std::size_t>(st)];
     return std::make_pair(e.first ? fcppt::loop::break_ : fcppt::loop::continue_, e.second);
   }
@@ -329,7 +357,7 @@ struct EQF
   }
   bool operator()(int const a, int const b) const
   {
-    lg("[" + std::to_string(a) + "," + std::to_string(b) + "]");
+    lg("[" + ej(a) + "," + ej(b) + "]");
     return cls[static_cast<std::size_t>(a)] == cls[static_cast<std::size_t>(b)];
   }
   std::string json() const
@@ -392,19 +420,31 @@ struct Sel
   vj::Rng rng;
   bool thorough;
   unsigned few;
+  bool sample_only = false; // inputs beyond the exhaustive bound: seeded picks in the thorough tier as well
   Sel(std::uint64_t seed, bool th) : rng(seed), thorough(th), few(2) {}
   template <typename F>
   void tables(int n, bool full, F const &f)
   {
-    if (thorough || full)
+    if ((thorough && !sample_only) || full)
     {
       for (int i = 0; i < n; ++i) f(i);
     }
     else
     {
-      for (unsigned k = 0; k < few; ++k) f(static_cast<int>(rng.below(static_cast<std::uint64_t>(n))));
+      for (unsigned k = 0; k < (thorough ? 4U * few : few); ++k) f(static_cast<int>(rng.below(static_cast<std::uint64_t>(n))));
     }
   }
+};
+
+// scope guard: table families are sampled (also in the thorough tier) while it lives
+struct SampleOnly
+{
+  Sel &sel;
+  bool old;
+  explicit SampleOnly(Sel &s) : sel(s), old(s.sample_only) { sel.sample_only = true; }
+  ~SampleOnly() { sel.sample_only = old; }
+  SampleOnly(SampleOnly const &) = delete;
+  SampleOnly &operator=(SampleOnly const &) = delete;
 };
 }
 
